@@ -231,6 +231,12 @@ def stepCore (_ : Unit) (ws : List String) : Unit × String :=
       if p2.length ≠ n2 * t2.width then bad idx
       else ((), idx ++ " " ++ showN showElems (decodeTypedSlice F BEVE t (encodeTypedRaw t2 n2 p2)))
     | _, _, _, _ => bad idx
+  | ["caprf", idx, _client, _kind, c, k, fmt, n, p] =>
+    match tyOf c k, fmt.toNat?, n.toNat?, unhex p with
+    | some t, some fmt, some n, some p =>
+      if p.length ≠ n * t.width then bad idx
+      else ((), idx ++ " " ++ showN showElems (decodeTypedSlice F fmt t (encodeTypedRaw t n p)))
+    | _, _, _, _ => bad idx
   | ["abld", idx, c, k, mis, _wire, q, n, p] =>
     match tyOf c k, mis.toNat?, unhex q, n.toNat?, unhex p with
     | some t, some mis, some q, some n, some p =>
